@@ -42,6 +42,7 @@ pub enum ErrorKind { NotFound, PermissionDenied, ConnectionRefused, ConnectionRe
     Interrupted, Unsupported, UnexpectedEof, OutOfMemory, Other }
 
 #[verifier::external_body]
+#[derive(Debug)]
 pub struct IoError { _p: () }
 
 impl IoError {
